@@ -122,3 +122,26 @@ func Verif_c28_builtin() {
 	}
 	verifReach("end")
 }
+
+var verifTestTokens = [...]string{"-n", "a", "=", "!", "(", ")", "-a", "-o", "-eq", "1", "", "-e", "<", "!=", "=~", "-nt", "-z", "]"}
+
+// Verif_c28_test: test and [ with arbitrary sequences of operator and operand
+// tokens never panic.
+func Verif_c28_test() {
+	nargs, ntok := verifParam("nargs"), verifParam("ntok")
+	name := "test"
+	var ws []*syntax.Word
+	for i := 0; i < nargs; i++ {
+		t := verifTestTokens[verifChoice(verifArgIDs[i%4]+string(rune('0'+i/4)), ntok)]
+		ws = append(ws, &syntax.Word{Parts: []syntax.WordPart{&syntax.SglQuoted{Value: t}}})
+	}
+	if verifParam("bracket") != 0 {
+		name = "["
+		ws = append(ws, &syntax.Word{Parts: []syntax.WordPart{&syntax.Lit{Value: "]"}}})
+	}
+	var out, errb bytes.Buffer
+	r := verifRunner(&out, &errb)
+	ok := verifNoPanic(func() { r.Run(context.Background(), verifCall(name, ws)) })
+	verifAssert(ok, "test builtin panicked")
+	verifReach("end")
+}
